@@ -19,7 +19,8 @@ import (
 
 func init() {
 	fw.Register(&fw.Prop{
-		ID: "C02",
+		ID:       "C02",
+		Parallel: 4, // cases are judged on 4 goroutines per shard: the library functions are stateless, shared state inside them shows up as wrong verdicts
 		Rule: "(curve, seed, path): curves secp256k1, NIST P-256, ed25519 and four pluggable curves (secp256k1/P-256 wrapped so that a quarter of all candidate I_L values are declared invalid, on NewPrivateKey and Shift, private and public side; in a second mode a sixteenth return a permanent error); seeds of length 0..128; paths of length 0..8 over {0, 1, 2^31-1, 2^31, 2^31+1, 2^32-1, random hardened / non-hardened}. Each node (stepwise NewMasterKey/DeriveChild, DeriveKeyFromPath of every prefix, Public(), public-side child) is compared with the SLIP-0010 model: private key, chain code, serialized public key, parent fingerprint; undefined derivations must fail, permanent errors must be returned. " +
 			"Non-trivial: distinct cases with path length >= 1.",
 		Assumptions: []string{"HMAC-SHA512, SHA-256 (standard library), RIPEMD-160 (x/crypto)", "the SLIP-0010 model in harness/oracle/slip10m over oracle/weier and oracle/ed (self-tested against the published SLIP-0010 vectors of all three curves incl. the P-256 retry vectors)"},
